@@ -76,15 +76,22 @@ def run(ctx):
     ctx.floor("selection success paths", len(okp), 10)
     atoms = sorted({a for a in D.all_atoms(okp)}, key=repr)
     n = 0
-    for ty, mem, tpi, jav, restricted, dup in itertools.product(("RoomCreate", "RoomMember", "RoomMessage"), MEMBERSHIPS, (False, True), (False, True), (False, True), (False, True)):
+    # every distinct projection of AuthorizationRules::V1..V11 (const-evaluated) onto the flags the function reads; the specification
+    # side depends on the room version only through "restricted joins exist" (room versions >= 8, flag restricted_join_rule)
+    from . import C08
+    versions = T.version_rules(ctx, w, ["authorization"])
+    flagsets = C08.flag_sets(versions, sorted(set(C08.flags_in(okp)) | {"restricted_join_rule"}))
+    ctx.floor("flag sets", len(flagsets), 2)
+    for ty, mem, tpi, jav, (ver, fl), dup in itertools.product(("RoomCreate", "RoomMember", "RoomMessage"), MEMBERSHIPS, (False, True), (False, True), flagsets, (False, True)):
         sc = dict(type=ty, membership=mem, tpi=tpi, jav=jav)
+        restricted = fl["restricted_join_rule"]
         val = A.Scenario(enums=[(r"^ty$", ty), (r"RoomMemberEventContent::membership\(.*\)\.Ok\.0$", mem)],
-                         bools=[(r"^rules\.restricted_join_rule$", restricted), (r"^slice::contains\(", dup)],
+                         bools=[(rf"^rules\.{n}$", v) for n, v in fl.items()] + [(r"^slice::contains\(", dup)],
                          wrappers=[(r"third_party_invite\(RoomMemberEventContent::new\(content\)\)\.Ok\.0$", "Some" if tpi else "None"),
                                    (r"join_authorised_via_users_server\(RoomMemberEventContent::new\(content\)\)\.Ok\.0$", "Some" if jav else "None")])
         cache = {a: val(a) for a in atoms}
         sel = [p for p in okp if all(cache.get(a) is None or cache[a] == t for a, t in p.conds)]
-        tag = f"type={ty},membership={mem},third_party_invite={tpi},authorising_user={jav},restricted={restricted},already_present={dup}"
+        tag = f"type={ty},membership={mem},third_party_invite={tpi},authorising_user={jav},flags={ver},already_present={dup}"
         if len(sel) != 1:
             ctx.unrecognised("C09.selection", f"C09.selection:{tag}", w.where(f), f"{len(sel)} success paths")
             continue
